@@ -11,7 +11,7 @@ for f in sorted(glob.glob("/root/work/verify_batch*.log")):
             res[m.group(1)] = {"apply": m.group(2), "demo_clean_rc": int(m.group(3)), "demo_mut_rc": int(m.group(4)), "baseline": m.group(5),
                                "how": "tools/verify_seed.sh in a scratch worktree of /repo (removed afterwards)"}
         # preserving refactorings are applied in pairs:  Cxx-p1+p2 apply=[ p1=git p2=git ] baseline=[...]
-        m = re.match(r"(C\d\d)-(p\d)\+(p\d) apply=\[(.*?)\] baseline=\[(.*)\]", line.strip())
+        m = re.match(r"(C\d\d)-(p\d+)\+(p\d+) apply=\[(.*?)\] baseline=\[(.*)\]", line.strip())
         if m:
             for k in (m.group(2), m.group(3)):
                 res[f"{m.group(1)}-{k}"] = {"apply": m.group(4).strip(), "baseline": m.group(5), "applied_together_with": [m.group(2), m.group(3)],
